@@ -9,6 +9,7 @@ def srcCfg : Cfg :=
     pySuffixes := JediModel.Gen.C19.pySuffixes.map String.toList
     gitignoreName := JediModel.Gen.C19.gitignoreName.toList
     conjuncts := JediModel.Gen.C19.folderFilterConjuncts
+    fileConjuncts := JediModel.Gen.C19.fileFilterConjuncts
     skipPrefixes := JediModel.Gen.C19.gitignoreSkipPrefixes
     skipContains := JediModel.Gen.C19.gitignoreSkipContains }
 
